@@ -26,8 +26,9 @@ LEVEL_TEXT = ("Machine-checked proof (Coq, closed under the global context) over
               "(vm_compute) against two real Channel objects.")
 LEVEL_NOTE = ("Trusted: Coq kernel + vm_compute; gen/c19.py; identification of model steps with critical sections "
               "(validated by the direct drive). Liveness is proved for the fair 'settling' environment (transport "
-              "delivers, application reads both streams); closed / EOF states and re-key stalls of the transport are "
-              "outside the model.")
+              "delivers, application reads both streams), including a reader that has half-closed its own sending "
+              "direction (shutdown_write) and set_combine_stderr switches; closed / EOF-received states and re-key "
+              "stalls of the transport are outside the model.")
 TECHNIQUE = "Coq proof (conservation invariant + termination measure) + AST-generated arithmetic + vm_compute differential correspondence"
 
 IMPORTS = "From PV Require Import C19 C20."
@@ -57,16 +58,20 @@ def check_settled(ctx, pair, case):
                      observed=S.out_window_size)
 
 
-def real_transfer(W, P, n, code, fuel):
-    """send / settle rounds on real channels; returns (pair, canonical output, rounds used)"""
+def real_transfer(W, P, n, code, fuel, shut_round=None):
+    """send / settle rounds on real channels; returns (pair, canonical output, rounds used).
+    shut_round: the READING side calls shutdown_write() (half-close of its own sending direction) just before
+    that round; it keeps reading, so the transfer must complete all the same."""
     cfg = (W, P, W, False)
     pair = Pair(cfg, (W, P, W, False))
     k = None if code < 0 else code
     pending = n
     rounds = 0
-    for _ in range(fuel):
+    for i in range(fuel):
         if pending <= 0:
             break
+        if shut_round is not None and i == shut_round:
+            pair.step(True, ("OShutW",))
         r = pair.step(False, ("OSend", k, pending))
         pair.settle(False)
         pending -= max(r, 0)
@@ -90,8 +95,9 @@ def transfers(ctx, n):
         size = min(size, 300000)
         code = rng.choice([-1, -1, 1, 1, 0, 2, 3, 4, 5])
         fuel = size // 4032 + 8
-        pair, out, rounds = real_transfer(W, P, size, code, fuel)
-        case = {"transfer": True, "W": W, "P": P, "n": size, "code": code, "fuel": fuel}
+        shut = rng.choice([None, None, 0, 1, 3, rng.randrange(0, fuel)])
+        pair, out, rounds = real_transfer(W, P, size, code, fuel, shut)
+        case = {"transfer": True, "W": W, "P": P, "n": size, "code": code, "fuel": fuel, "shut_round": shut}
         report_problems(ctx, pair, case)
         ctx.count(("transfer", W, P, size, code), nontrivial=size > 0, kind="transfer-code%d" % code)
         if out[0] != 0:
@@ -104,7 +110,11 @@ def transfers(ctx, n):
                          case=case, expected=0, observed=out[0])
             else:
                 ctx.fail("transfer-stalled", "%d of %d bytes still pending after %d send calls with a reader that "
-                         "reads everything" % (out[0], size, rounds), case=case, expected=0, observed=out[0])
+                         "reads everything%s (sender window %d, reader's in_window_sofar %d)" % (
+                             out[0], size, rounds,
+                             "" if shut is None else "; the reader had called shutdown_write() before round %d" % shut,
+                             S.out_window_size, R.in_window_sofar),
+                         case=case, expected=0, observed=out[0])
         else:
             # the receiver application got every byte of stdout/stderr data; discarded data was credited
             got = pair.consumed[False] + pair.discarded[False]
@@ -131,10 +141,11 @@ def run(ctx):
                 "0..5; non-trivial = distinct and at least one byte moved")
     ctx.trusted += ["model coq/Model/C19.v + C20.v step/round structure is hand-written; arithmetic is generated (gen/c19.py)",
                     "stub transport of harness/c19.py"]
-    ctx.assumptions += ["channel open and active on both ends (closed / EOF transitions are C22's)",
+    ctx.assumptions += ["channel not closed and no EOF received by the reader (half-close by shutdown_write is covered)",
                         "fair environment: the transport delivers queued messages and the application keeps reading "
                         "both streams", "the peer respects the window it was granted (C19 for a paramiko peer)"]
     ctx.prove(gens=GENS)
+    c19.check_constants(ctx)
     scale = 6 if ctx.thorough else 1
 
     def after(pair, case):
@@ -151,7 +162,8 @@ def replay(ctx, rep):
     if case.get("live") or case.get("blocked"):
         return c19.replay(ctx, rep)
     if case.get("transfer"):
-        pair, out, rounds = real_transfer(case["W"], case["P"], case["n"], case["code"], case["fuel"])
+        pair, out, rounds = real_transfer(case["W"], case["P"], case["n"], case["code"], case["fuel"],
+                                          case.get("shut_round"))
         ctx.count(("replay", repr(case)))
         ctx.count(("replay2", repr(case)))
         report_problems(ctx, pair, case)
